@@ -316,6 +316,10 @@ def families(tier):
             {"hash": ("id", 0), "pre": [5], "progs": [["fr:5", "x"], ["fr:5", "r"], ["fr:5", "r"]]},
             {"hash": ("id", 0), "pre": [5], "progs": [["fw:5", "x"], ["e:5"], ["fr:5", "x"]]},
         ], ["erase-waits-for-accessor", "exclude-waits-for-accessor", "upgrade-inplace:TbbVerif.C10.Pc.xUpg"]),
+        "erase-by-accessor with a stale mask: the table grows and the key's new bucket is rehashed between exclude()'s mask load and its bucket lock": ([
+            {"hash": ("id", 0), "pre": BIG, "progs": [["fr:259", "x"], ["i:600", "c:259"]]},
+            {"hash": ("id", 0), "pre": BIG, "progs": [["fw:259", "x"], ["i:600"], ["c:259", "fr:259", "r"]]},
+        ], ["rehash", "upgrade-inplace:TbbVerif.C10.Pc.xUpg"]),
         "lazy rehash scan (rehash_bucket) with a contended upgrade vs erase / insert / find on the parent bucket": ([
             {"hash": ("id", 0), "pre": PRE_RH3, "progs": [["c:773"], ["e:517"]]},
             {"hash": ("id", 0), "pre": PRE_RH3, "progs": [["fr:261", "r"], ["e:517"], ["c:5"]]},
@@ -613,7 +617,7 @@ def run(ck):
                "growth thresholds 255/511(/1023)), each under seeded random AND state-guided schedules (a thread is preempted right after a "
                "rehash-scan step / after its search found its node, in favour of another thread that then runs on), replayed on BOTH Lean "
                "models: critical-section events on HMap, every atomic access (lock words with values, node_list, my_mask, my_size, my_table) on "
-               "HMapR; six hand-written scenario families with fixed seeds and path-coverage accounting (contended upgrade + re-search for "
+               "HMapR; seven hand-written scenario families with fixed seeds and path-coverage accounting (contended upgrade + re-search for "
                "lookup<insert> / internal_erase / rehash_bucket, element try-lock failure + give-up + restart, mask race / rehash collision / "
                "bucket_accessor try-lock outcomes, erase and erase-by-accessor against accessor holders, lazy rehash scan vs erase/insert/find on "
                "the parent bucket under a contended upgrade, growth across two segments in one run); bounded-preemption DFS of the hand-written "
